@@ -69,6 +69,9 @@ func main() {
 		for _, id := range ids {
 			start := time.Now()
 			r := runProp(c, id)
+			if c.Tier == "thorough" && len(c.Overlay) == 0 {
+				r.Info["checker_selftest"] = sensitivity(c, id)
+			}
 			if e := finish(c, r, start, !*noEvidence); e != 0 {
 				exit = e
 			}
